@@ -1,7 +1,202 @@
 package c12
 
-import "verif/harness/internal/core"
+import (
+	"bytes"
+	"encoding/json"
+	"fmt"
+	"image"
+	"reflect"
+	"sync/atomic"
 
-func rasterTieIn(c *core.Ctx, h *Header, progs []genLine) {}
+	"github.com/tdewolff/canvas"
+	"github.com/tdewolff/canvas/renderers/rasterizer"
 
-func replayRaster(c *core.Ctx, s *Scenario) []core.Mismatch { return nil }
+	"verif/harness/internal/core"
+	"verif/harness/internal/rec"
+)
+
+// PaintNames must be the list of spec/GState.tla (frame codes are 1-based indices into it).
+var PaintNames = []string{"black", "red", "redh", "dred", "blue", "blueh", "green", "grey"}
+
+const FreeCode = 99
+
+// RasterScene is one program with the painter's-order frame computed by spec/Raster.tla.
+type RasterScene struct {
+	Prog  []Draw  `json:"prog"`
+	Res   int     `json:"res"` // 1,2,3,5 px/mm ; 96 = 96 dpi
+	Wpx   int     `json:"wpx"`
+	Hpx   int     `json:"hpx"`
+	Frame [][]int `json:"frame"`
+	NZ    [][]int `json:"nz"` // frame with every fill rule read as NonZero (empty when identical)
+	Feat  map[string]bool `json:"feat,omitempty"`
+	Hdr   *Header `json:"hdr,omitempty"`
+	Be    string  `json:"be,omitempty"`
+}
+
+func resolution(r int) canvas.Resolution {
+	if r == 96 {
+		return canvas.DPI(96)
+	}
+	return canvas.DPMM(float64(r))
+}
+
+type recEvent struct {
+	Kind  string
+	M     canvas.Matrix
+	Data  []float64
+	Style canvas.Style
+}
+
+func snapshot(c *canvas.Canvas) []recEvent {
+	r := rec.New(c.W, c.H)
+	c.RenderTo(r)
+	out := make([]recEvent, len(r.Events))
+	for i, e := range r.Events {
+		out[i] = recEvent{Kind: e.Kind, M: e.M, Data: e.Data, Style: e.Style}
+	}
+	return out
+}
+
+// CompareRaster renders the scene with the real rasterizer and compares it with the frame.
+// spaces: 0 linear (exact colours), 1 sRGB, 2 gamma 2.2 (presence, colour within +-3).
+func CompareRaster(h *Header, s *RasterScene, spaces []int) (ms []core.Mismatch) {
+	defer func() {
+		if r := recover(); r != nil {
+			ms = append(ms, core.Mismatch{Signature: "raster-panic", Detail: fmt.Sprint(r)})
+		}
+	}()
+	c := BuildCanvas(h, s.Prog)
+	before := snapshot(c)
+	progJ := string(mustJSON(s.Prog))
+	for _, sp := range spaces {
+		var cs canvas.ColorSpace = canvas.LinearColorSpace{}
+		name := "linear"
+		switch sp {
+		case 1:
+			cs, name = canvas.SRGBColorSpace{}, "srgb"
+		case 2:
+			cs, name = canvas.GammaColorSpace{Gamma: 2.2}, "gamma2.2"
+		}
+		img := rasterizer.Draw(c, resolution(s.Res), cs)
+		b := img.Bounds()
+		if b.Dx() != s.Wpx || b.Dy() != s.Hpx || b.Min != (image.Point{}) {
+			ms = append(ms, core.Mismatch{Signature: "raster-size", Detail: fmt.Sprintf("image %v, expected %dx%d at res %d; program %s", b, s.Wpx, s.Hpx, s.Res, progJ)})
+			return
+		}
+		img2 := rasterizer.Draw(c, resolution(s.Res), cs)
+		if !bytes.Equal(img.Pix, img2.Pix) {
+			ms = append(ms, core.Mismatch{Signature: "raster-second-render-differs", Detail: fmt.Sprintf("res %d space %s program %s", s.Res, name, progJ)})
+		}
+		// pixels: every mismatching pixel is attributed to one class
+		type bad struct {
+			x, y, exp int
+			got      [4]uint8
+		}
+		classes := map[string][]bad{}
+		for y := 0; y < s.Hpx; y++ {
+			for x := 0; x < s.Wpx; x++ {
+				code := s.Frame[y][x]
+				o := img.PixOffset(x, y)
+				got := [4]uint8{img.Pix[o], img.Pix[o+1], img.Pix[o+2], img.Pix[o+3]}
+				if pixelOK(h, code, got, sp) {
+					continue
+				}
+				var sig string
+				switch {
+				case len(s.NZ) > 0 && s.NZ[y][x] != code && pixelOK(h, s.NZ[y][x], got, sp):
+					sig = "raster-fillrule-ignored:rules-differ-on-pixel" // the pixel is what the frame demands when every rule is read as NonZero
+				case x == 0 && s.Feat["left"]:
+					sig = "raster-pixel:column-0:region-crosses-left-border"
+				case y == 0 && s.Feat["top"]:
+					sig = "raster-pixel:row-0:region-crosses-top-border"
+				case s.Feat["openfill"]:
+					sig = "raster-open-subpath-fill"
+				case s.Feat["selfx"]:
+					sig = "raster-stroke:closed-self-intersecting-path"
+				case code == 0:
+					sig = "raster-pixel:outside-painted"
+				case got[3] == 0:
+					sig = "raster-pixel:inside-not-painted"
+				default:
+					sig = "raster-pixel:wrong-colour"
+				}
+				if len(classes[sig]) < 4 {
+					classes[sig] = append(classes[sig], bad{x, y, code, got})
+				}
+			}
+		}
+		for sig, bads := range classes {
+			b0 := bads[0]
+			ms = append(ms, core.Mismatch{Signature: sig, Detail: fmt.Sprintf("res %d space %s: pixel (%d,%d) is %v, frame code %d (0 = untouched, n = paint %v); first mismatches %v; program %s",
+				s.Res, name, b0.x, b0.y, b0.got, b0.exp, PaintNames, bads, progJ)})
+		}
+	}
+	after := snapshot(c)
+	if !reflect.DeepEqual(before, after) {
+		ms = append(ms, core.Mismatch{Signature: "raster-canvas-mutated", Detail: "the canvas replays differently after rasterizing; program " + progJ})
+	}
+	return
+}
+
+func pixelOK(h *Header, code int, got [4]uint8, space int) bool {
+	switch {
+	case code == FreeCode:
+		return true
+	case code == 0:
+		return got == [4]uint8{}
+	}
+	pm := h.Paints[PaintNames[code-1]].Pm
+	if space == 0 {
+		return got == [4]uint8{uint8(pm[0]), uint8(pm[1]), uint8(pm[2]), uint8(pm[3])}
+	}
+	if got[3] != 255 {
+		return false
+	}
+	for i := 0; i < 3; i++ {
+		d := int(got[i]) - pm[i]
+		if d < -3 || d > 3 {
+			return false
+		}
+	}
+	return true
+}
+
+// rasterTieIn: the programs of C12 through rasterizer.Draw, against the frame of spec/Raster.tla (FRes = 2).
+func rasterTieIn(c *core.Ctx, h *Header, progs []genLine) {
+	ch := make(chan int, 256)
+	go func() {
+		for i := range progs {
+			if len(progs[i].Frame) > 0 {
+				ch <- i
+			}
+		}
+		close(ch)
+	}()
+	var n, certain int64
+	core.Parallel(12, ch, func(i int) {
+		g := progs[i]
+		s := &RasterScene{Prog: g.Prog, Res: g.Res, Wpx: g.Wpx, Hpx: g.Hpx, Frame: g.Frame, NZ: g.NZ, Feat: g.Feat, Hdr: h, Be: "raster"}
+		ms := CompareRaster(h, s, []int{0})
+		atomic.AddInt64(&n, 1)
+		for _, row := range g.Frame {
+			for _, v := range row {
+				if v != FreeCode {
+					atomic.AddInt64(&certain, 1)
+				}
+			}
+		}
+		c.Report(s, ms)
+	})
+	c.Count(n, 0, n)
+	c.SetExtra("raster_programs", n)
+	c.SetExtra("raster_certain_pixels", certain)
+}
+
+// ReplayRaster re-executes a raster scenario (used by C12 and C14).
+func ReplayRaster(raw json.RawMessage, spaces []int) []core.Mismatch {
+	var s RasterScene
+	if err := json.Unmarshal(raw, &s); err != nil || s.Hdr == nil {
+		return []core.Mismatch{{Signature: "machinery", Detail: fmt.Sprint("bad raster scenario: ", err)}}
+	}
+	return CompareRaster(s.Hdr, &s, spaces)
+}
